@@ -1,4 +1,5 @@
 import Driver.DiffDB
+import Driver.DiffDBDur
 import Driver.Fns
 import Driver.Codec
 import Driver.BFT
@@ -32,6 +33,7 @@ import Driver.CodecNFC
 def main (args : List String) : IO UInt32 := do
   match args with
   | ["C12"] => Driver.DiffDB.main; return 0
+  | ["C12DUR"] => Driver.DiffDBDur.main; return 0
   | ["C07"] => Driver.Fns.main; return 0
   | ["C08"] => Driver.Codec.main; return 0
   | ["C02"] => Driver.BFT.main; return 0
